@@ -385,7 +385,7 @@ def window_allcalls_grid(tier):
     for c in window_grid(tier):
         c['allcalls'] = True
         yield c
-    for calib in ('', '~/photo/calib'):
+    for calib in ('', '~/photo/calib', '/data/calib ', ' '):          # round 11: values with white space at the ends come back exactly
         yield dict(calib=calib, resolve='@tmp', rescore=True, flist='ok', extra=[['PHOTO_CALIB_SAVE', 'x']], allcalls=True)
 
 
@@ -402,7 +402,7 @@ def window_case(draw):
     # unrelated variables: arbitrary ones, and ones whose names sit next to the touched variables (what a helper might pick for a stash)
     names = st.one_of(st.from_regex(r'VK_[A-Z]{1,6}', fullmatch=True), st.sampled_from(SIBLINGS))
     extra = [[k, draw(st.text(alphabet='abc/._-019', max_size=8))] for k in draw(st.lists(names, max_size=3, unique=True))]
-    return dict(calib=draw(st.sampled_from(['/calib/dir', '', '/x y/z', None, '~', '~/photo/calib', '$HOME/calib', 'relative/dir'])), resolve=draw(st.sampled_from(['@tmp', '/nonexistent', None])),
+    return dict(calib=draw(st.sampled_from(['/calib/dir', '/data/calib ', '', '/x y/z', None, ' /calib/dir', ' ', '\t/calib\n', '~', '~/photo/calib', '$HOME/calib', 'relative/dir'])), resolve=draw(st.sampled_from(['@tmp', '/nonexistent', None])),
                 rescore=draw(st.booleans()), flist=draw(st.sampled_from(['ok', 'ok', 'missing', 'bad-table'])), extra=extra)
 
 
@@ -420,6 +420,10 @@ PAR_KEYS = ['object', 'method', 'aesthetics', 'run2d', 'run1d', 'wavemin', 'wave
 
 def write_par(fn, case):
     r2, r1 = (C16.RUN2D, C16.RUN1D) if case.get('real_read') else ('v9_9_9', 'v8_8_8')
+    if case.get('legacy_run2d'):
+        # round 11: an SDSS-I/II reduction name (a plain integer): the reading stage then looks for $SPECTRO_REDUX instead of
+        # $BOSS_SPECTRO_REDUX - which is not set here, so the run fails in the reading stage (or wherever a fault is injected before)
+        r2 = case['legacy_run2d']
     vals = dict(object=case['object'], method=case['method'], aesthetics='mean', run2d=r2, run1d=r1, wavemin='3600', wavemax='3700',
                 snmax='100', niter='2', nkeep='4', minuse='3' if case['variant'] == 'low-usemask' else '1')
     if case['variant'] == 'missing-keyword':
@@ -597,6 +601,8 @@ def template_grid(tier):
     # the real reading stage, with and without the variables it consults
     for extra in ([], [['SPECTRO_MATCH', '/nonexistent/match'], ['PHOTO_RESOLVE', '/nonexistent/resolve']]):
         yield dict(run2d=None, run1d='orig1d', object='gal', method='pca', variant='ok', which='niter', flux=False, dump_exists=False, extra=extra, real_read=True)
+    yield dict(run2d=None, run1d='orig1d', object='gal', method='pca', variant='ok', which='niter', flux=False, dump_exists=False, extra=[], real_read=True, legacy_run2d='26')
+    yield dict(run2d='orig2d', run1d=None, object='gal', method='pca', variant='ok', which='niter', flux=False, dump_exists=False, extra=[['SPECTRO_MATCH', '/nonexistent/match']], real_read=True, legacy_run2d='103')
 
 
 def template_allcalls_grid(tier):
@@ -635,11 +641,11 @@ def template_case(draw):
                 variant=draw(st.sampled_from(['ok', 'ok', 'missing-keyword', 'non-numeric', 'missing-hmf-keys', 'missing-table', 'unreadable-file', 'low-usemask'])),
                 which=draw(st.sampled_from(PAR_KEYS)), flux=draw(st.booleans()), dump_exists=draw(st.booleans()), extra=extra,
                 parextra=[[k, draw(st.sampled_from(['/data/redux', 'v1_2_3', 'x']))] for k in draw(st.lists(st.sampled_from(PAR_EXTRA), max_size=2, unique=True))],
-                real_read=draw(st.integers(0, 9)) == 0, verbose=draw(st.booleans()))
+                real_read=draw(st.integers(0, 9)) == 0, verbose=draw(st.booleans()), legacy_run2d=draw(st.sampled_from([None, None, '26', '104'])))
 
 
 def template_classify(case):
-    return (['verbose'] if case.get('verbose') else []) + (['real-readspec'] if case.get('real_read') else ['stub-readspec']) + (['par-extra-keywords'] if case.get('parextra') else []) + ['RUN2D:' + ('set' if case['run2d'] is not None else 'unset'), 'RUN1D:' + ('set' if case['run1d'] is not None else 'unset'),
+    return (['verbose'] if case.get('verbose') else []) + (['real-readspec'] if case.get('real_read') else ['stub-readspec']) + (['legacy-run2d'] if case.get('legacy_run2d') else []) + (['par-extra-keywords'] if case.get('parextra') else []) + ['RUN2D:' + ('set' if case['run2d'] is not None else 'unset'), 'RUN1D:' + ('set' if case['run1d'] is not None else 'unset'),
             'obj:' + case['object'], 'method:' + case['method'], 'variant:' + case['variant'], 'flux-plots' if case['flux'] else 'no-flux-plots',
             'dump-exists' if case['dump_exists'] else 'no-dump']
 
